@@ -220,6 +220,7 @@ func TestVFC12RateLimitHTTP(t *testing.T) {
 		remotes := []string{"192.0.2.1:40000", "192.0.2.2:40001", "[2001:db8::3]:40002"}
 		reachedLimit, correctWhileBlocked, crossedBlock, clearedBySuccess := false, false, false, false
 		var trace []string
+		floodSeq, bigFloods := 0, 0
 
 		t.Repeat(map[string]func(*rapid.T){
 			"attempt": func(t *rapid.T) {
@@ -315,6 +316,29 @@ func TestVFC12RateLimitHTTP(t *testing.T) {
 					reachedLimit = true
 					vfC12.Class("limiter:limit_reached")
 				}
+			},
+			"many_other_addresses_fail": func(t *rapid.T) {
+				// a burst of wrong logins from many other addresses (a scan, a
+				// botnet): the three observed addresses keep their state
+				n := rapid.SampledFrom([]int{3, 40, 1100}).Draw(t, "other_addresses")
+				if n > 100 {
+					if bigFloods > 0 {
+						t.Skip("one large burst per history")
+					}
+					bigFloods++
+				}
+				for i := 0; i < n; i++ {
+					floodSeq++
+					remote := fmt.Sprintf("10.%d.%d.%d:5000", (floodSeq>>16)&0xff, (floodSeq>>8)&0xff, floodSeq&0xff)
+					if i%3 == 0 {
+						remote = fmt.Sprintf("[2001:db8:f00d::%x]:5000", floodSeq)
+					}
+					if rec := vfLogin(h, remote, "nobody", "x"); rec.Code != http.StatusForbidden && rec.Code != http.StatusTooManyRequests {
+						t.Fatalf("wrong login from %s: status %d", remote, rec.Code)
+					}
+				}
+				trace = append(trace, fmt.Sprintf("t=%s %d other addresses fail once", now, n))
+				vfC12.Class(fmt.Sprintf("limiter:flood=%d", n))
 			},
 			"advance": func(t *rapid.T) {
 				d := rapid.SampledFrom(append(append([]time.Duration{}, vfC12Advances...), blockDur-5*time.Second, blockDur+5*time.Second)).Draw(t, "advance")
